@@ -1,4 +1,5 @@
 //! Schema lab: grammar-directed schema generator with arbitrary legal layout, AST projection
 //! through the parser's public accessors, token-soup and mutation generators.
+pub mod conform;
 pub mod gen;
 pub mod proj;
